@@ -46,11 +46,13 @@ pub struct C7Cfg {
     pub hdr: bool,
     /// 0 = default (64), 1..=4 = Some(k), 5 = None, 6 = stats Some(1) / column index None, 7 = stats None / column index Some(1)
     pub trunc: u8,
+    /// dictionary page size limit: 0 = default, 1 = 1 byte (fallback after the first mini-batch), 2 = 16 bytes (mid-chunk fallback)
+    pub dlimit: u8,
 }
 impl C7Cfg {
-    pub const DEFAULT: C7Cfg = C7Cfg { page_rows: 0, stats: 0, bloom: 0, v2: false, dict: true, hdr: false, trunc: 0 };
+    pub const DEFAULT: C7Cfg = C7Cfg { page_rows: 0, stats: 0, bloom: 0, v2: false, dict: true, hdr: false, trunc: 0, dlimit: 0 };
     fn to_json(&self) -> Value {
-        json!({"page_rows": self.page_rows, "stats": self.stats, "bloom": self.bloom, "v2": self.v2, "dict": self.dict, "hdr": self.hdr, "trunc": self.trunc})
+        json!({"page_rows": self.page_rows, "stats": self.stats, "bloom": self.bloom, "v2": self.v2, "dict": self.dict, "hdr": self.hdr, "trunc": self.trunc, "dlimit": self.dlimit})
     }
     fn from_json(v: &Value) -> C7Cfg {
         C7Cfg {
@@ -61,6 +63,7 @@ impl C7Cfg {
             dict: v["dict"].as_bool().unwrap_or(true),
             hdr: v["hdr"].as_bool().unwrap_or(false),
             trunc: v["trunc"].as_u64().unwrap_or(0) as u8,
+            dlimit: v["dlimit"].as_u64().unwrap_or(0) as u8,
         }
     }
     fn props(&self) -> WriterProperties {
@@ -81,6 +84,11 @@ impl C7Cfg {
             b = b.set_writer_version(WriterVersion::PARQUET_2_0);
         }
         b = b.set_dictionary_enabled(self.dict);
+        match self.dlimit {
+            1 => b = b.set_dictionary_page_size_limit(1),
+            2 => b = b.set_dictionary_page_size_limit(16),
+            _ => {}
+        }
         if self.hdr {
             b = b.set_write_page_header_statistics(true);
         }
@@ -105,7 +113,7 @@ fn product_cfgs() -> Vec<C7Cfg> {
                 for v2 in [false, true] {
                     for dict in [true, false] {
                         for hdr in [false, true] {
-                            v.push(C7Cfg { page_rows, stats, bloom, v2, dict, hdr, trunc: 0 });
+                            v.push(C7Cfg { page_rows, stats, bloom, v2, dict, hdr, trunc: 0, dlimit: 0 });
                         }
                     }
                 }
@@ -130,6 +138,11 @@ fn dev1_cfgs() -> Vec<C7Cfg> {
         C7Cfg { dict: false, ..d },
         C7Cfg { hdr: true, ..d },
         C7Cfg { page_rows: 1, hdr: true, ..d },
+        // dictionary fallback (immediately / mid-chunk), one page and several pages
+        C7Cfg { dlimit: 1, ..d },
+        C7Cfg { dlimit: 1, page_rows: 1, ..d },
+        C7Cfg { dlimit: 1, page_rows: 2, ..d },
+        C7Cfg { dlimit: 2, page_rows: 1, ..d },
     ]
 }
 /// truncation product used for byte-array columns
@@ -141,7 +154,7 @@ fn trunc_cfgs(quick: bool) -> Vec<C7Cfg> {
             for (stats, hdr) in [(0u8, false), (0, true), (1, false)] {
                 for v2 in if quick { vec![false] } else { vec![false, true] } {
                     for dict in [true, false] {
-                        v.push(C7Cfg { page_rows, stats, bloom: 0, v2, dict, hdr, trunc });
+                        v.push(C7Cfg { page_rows, stats, bloom: 0, v2, dict, hdr, trunc, dlimit: 0 });
                     }
                 }
             }
@@ -149,6 +162,9 @@ fn trunc_cfgs(quick: bool) -> Vec<C7Cfg> {
     }
     v.push(C7Cfg { bloom: 1, ..C7Cfg::DEFAULT });
     v.push(C7Cfg { bloom: 2, ..C7Cfg::DEFAULT });
+    v.push(C7Cfg { dlimit: 1, page_rows: 1, ..C7Cfg::DEFAULT });
+    v.push(C7Cfg { dlimit: 1, page_rows: 1, trunc: 1, hdr: true, ..C7Cfg::DEFAULT });
+    v.push(C7Cfg { dlimit: 2, page_rows: 1, ..C7Cfg::DEFAULT });
     v
 }
 
@@ -861,7 +877,11 @@ pub fn run(ctx: &Ctx) -> ! {
                                 if page_rows == 2 && lens[li] > 300 {
                                     continue;
                                 }
-                                items.push((si, li, *bl, pat, dict, page_rows));
+                                items.push((si, li, *bl, pat, dict, page_rows, 0u8));
+                                if dict && *bl == 1 {
+                                    // mid-chunk dictionary fallback (16-byte dictionary limit) on long columns
+                                    items.push((si, li, *bl, pat, dict, page_rows, 2u8));
+                                }
                             }
                         }
                     }
@@ -872,7 +892,7 @@ pub fn run(ctx: &Ctx) -> ! {
         let a = vcore::lfsr_bytes(8 * 10000, vcore::LFSR_A);
         let b2 = vcore::lfsr_bytes(8 * 10000, vcore::LFSR_B);
         st.merge(par_for(ctx, "bloomlong", items.len() as u64, 4, |idx, st| {
-            let (si, li, bloom, pat, dict, page_rows) = items[idx as usize];
+            let (si, li, bloom, pat, dict, page_rows, dlimit) = items[idx as usize];
             let spec = &sp[si];
             let rows: Vec<Option<Raw>> = (0..lens[li])
                 .map(|i| {
@@ -890,7 +910,7 @@ pub fn run(ctx: &Ctx) -> ! {
                     })
                 })
                 .collect();
-            let case = Case { sub: "bloomlong", input: Input::Low { spec: spec.clone(), rows }, cfg: C7Cfg { page_rows, stats: 0, bloom, v2: false, dict, hdr: false, trunc: 0 } };
+            let case = Case { sub: "bloomlong", input: Input::Low { spec: spec.clone(), rows }, cfg: C7Cfg { page_rows, stats: 0, bloom, v2: false, dict, hdr: false, trunc: 0, dlimit } };
             st.add("bloomlong", 1, 1);
             if idx + 1 == items.len() as u64 {
                 st.sample("bloomlong", || json!({"type": spec.label, "len": lens[li], "bloom": bloom, "pattern": pat, "dict": dict}));
@@ -903,8 +923,9 @@ pub fn run(ctx: &Ctx) -> ! {
     if want("arrow") {
         let tys = arrow_types();
         let mut cfgs = dev1_cfgs();
-        cfgs.push(C7Cfg { page_rows: 1, stats: 0, bloom: 1, v2: true, dict: false, hdr: true, trunc: 0 });
-        cfgs.push(C7Cfg { page_rows: 2, stats: 0, bloom: 0, v2: true, dict: true, hdr: false, trunc: 1 });
+        cfgs.push(C7Cfg { page_rows: 1, stats: 0, bloom: 1, v2: true, dict: false, hdr: true, trunc: 0, dlimit: 0 });
+        cfgs.push(C7Cfg { page_rows: 1, v2: true, dlimit: 1, ..C7Cfg::DEFAULT });
+        cfgs.push(C7Cfg { page_rows: 2, stats: 0, bloom: 0, v2: true, dict: true, hdr: false, trunc: 1, dlimit: 0 });
         let nmax = if quick { 3 } else { 4 };
         let mut starts = vec![];
         let mut total = 0u64;
